@@ -364,20 +364,37 @@ def macro_section(r, n, avoid):
     ends_empty = set()            # macros whose expansion can end in a macro that expands to nothing
     starts_paren = set()          # object-like macros whose expansion can start with "("
 
-    def guard_fname(body):
-        """F M where F is a function-like macro name and M expands to "(...": not an invocation."""
-        out = []
+    def guard_fname(body, params=()):
+        """Keeps known-finding constructs out of a macro body (or tags them):
+        * F X ... where F is a function-like macro name and X is not "(": ppci expands X while looking
+          for the "(", so X must not be a macro or parameter that can vanish or produce a "(";
+        * inside parentheses (a possible argument list of an invocation formed by the body) no macro
+          whose expansion can be empty / end empty / contain a no-longer-expandable name."""
+        out, depth = [], 0
         fnames = {f[0] for f in funcs}
+        vanishing = set(params) | {"__VA_ARGS__"} | maybe_empty | starts_paren | ends_empty
         for t in body:
-            if out and out[-1] in fnames and t in starts_paren:
+            if out and out[-1] in fnames and t != "(" and (t in vanishing or t in objs or t in fnames):
                 if K_FNAME_MACRO in avoid:
                     out.append("+")
                 else:
                     tags.add(K_FNAME_MACRO)
+            if depth > 0 and (t in maybe_empty or t in ends_empty):
+                if K_EMPTY_EXPANSION_ARG in avoid:
+                    t = "q"
+                else:
+                    tags.add(K_EMPTY_EXPANSION_ARG)
+            if depth > 0 and t in selfref:
+                if K_BLUE in avoid:
+                    t = "q"
+                else:
+                    tags.add(K_BLUE)
+            if t == "(":
+                depth += 1
+            elif t == ")":
+                depth = max(0, depth - 1)
             out.append(t)
         return out
-    lines = []
-    idents = ["x", "y", "z", "foo", "bar"]
 
     def tok_pool(params, self_name=None, in_func=False):
         pool = list(idents) + ["1", "2", "42", "0x10", "+", "-", "*", "(", ")", ",", ";", "[", "]"]
@@ -451,7 +468,7 @@ def macro_section(r, n, avoid):
                     feats.add("paste")
             if name in body:
                 feats.add("function-macro-self-reference")
-            body = guard_fname(body)
+            body = guard_fname(body, params)
             sig = ", ".join(params + (["..."] if variadic else []))
             lines.append("#define %s(%s) %s" % (name, sig, " ".join(body)))
             funcs.append((name, np_, variadic))
